@@ -789,7 +789,14 @@ func specCall(name string, args []interface{}, env *specEnv) (interface{}, bool)
 }
 
 // specMatch: does the implementation's result equal the specified value?
+var specDepth int
+
 func specMatch(got, want interface{}) bool {
+	specDepth++
+	defer func() { specDepth-- }()
+	if specDepth > 64 {
+		return false
+	}
 	if verifSameNode(got, want) {
 		return true
 	}
@@ -875,6 +882,11 @@ func specMatchMultiset(got, want interface{}) bool {
 
 // verifIsJSON: the result invariant of C16.
 func verifIsJSON(v interface{}) bool {
+	specDepth++
+	defer func() { specDepth-- }()
+	if specDepth > 64 {
+		return false // cyclic: not serialisable
+	}
 	if verifIsLazy(v) {
 		return true // an untouched part of the input document
 	}
